@@ -4,6 +4,8 @@ import re
 from cv import flow, rules, graph
 from cv.rules import events_of
 
+from props import common
+
 TITLE = "Restore stays inside its destination and never clobbers by default"
 TECHNIQUE = 'static analysis: effect table over the call graph (no-follow primitives only on symlink paths), guard analysis of the refusal, path provenance'
 EXPLANATION = (
@@ -197,3 +199,4 @@ def run(ck, w):
         ck.fail(o, "restore::restore", "reaches %s" % "/".join(sorted(have)), "restore can modify the archive")
     else:
         ck.ok(o)
+    common.cli_option(ck, w, "C16.2c", "RestoreOptions", "overwrite", ("param", "force_overwrite"))
